@@ -446,6 +446,14 @@ func (sh *Shared) buildIntrinsics() {
 		}
 		return r
 	}
+	// ---- go-mysql GTID text (outside every claim): "" iff no keys, else an opaque token ----
+	m["(*github.com/go-mysql-org/go-mysql/mysql.MysqlGTIDSet).String"] = func(fr *frame, args []value) value {
+		mp := (*fr.ptr(args[0])).(*omap)
+		if mp.len() == 0 {
+			return ""
+		}
+		return "<gtidset>"
+	}
 	// ---- context ----
 	noopCancel := func(fr *frame) value {
 		pkg := fr.i.prog.ImportedPackage(verifndPath)
